@@ -44,6 +44,11 @@ type Server struct {
 	SortedScan bool
 }
 
+// ErrTxClosed is what a transaction that has ended answers (pgx.ErrTxClosed
+// in the driver; go-vise does not compare against it, so the fake has a
+// value of its own that needs nothing of the pgx package initialised).
+var ErrTxClosed = errors.New("tx is closed")
+
 func New() *Server { return &Server{} }
 
 func (s *Server) fail(op string) bool { return s.Fail != nil && s.Fail(op) }
@@ -120,7 +125,7 @@ func (t *Tx) Begin(ctx context.Context) (pgx.Tx, error) { return nil, errors.New
 func (t *Tx) Commit(ctx context.Context) error {
 	t.rec.Committed++
 	if t.rec.Ended {
-		return pgx.ErrTxClosed
+		return ErrTxClosed
 	}
 	if t.s.fail("commit") {
 		// the commit did not happen; the server rolls the transaction back
@@ -152,7 +157,7 @@ func (t *Tx) Commit(ctx context.Context) error {
 func (t *Tx) Rollback(ctx context.Context) error {
 	t.rec.RolledBack++
 	if t.rec.Ended {
-		return pgx.ErrTxClosed
+		return ErrTxClosed
 	}
 	t.rec.Ended = true
 	t.rec.Pending = nil
@@ -179,7 +184,7 @@ func (t *Tx) QueryRow(ctx context.Context, sql string, args ...any) pgx.Row {
 func (t *Tx) usable() error {
 	if t.rec.Ended {
 		t.rec.UsedAfter = true
-		return pgx.ErrTxClosed
+		return ErrTxClosed
 	}
 	if t.rec.Aborted {
 		return errors.New("current transaction is aborted, commands ignored until end of transaction block")
